@@ -102,10 +102,7 @@ func UnmarshalTestAction(b []byte) (chain.Action, error) {
 		return nil, fmt.Errorf("unexpected test action typeID: %d != %d", b[0], TestActionID)
 	}
 
-	if err := codec.LinearCodec.UnmarshalFrom(
-		&wrappers.Packer{Bytes: b[1:]},
-		t,
-	); err != nil {
+	if err := codec.UnmarshalExact(b[1:], t); err != nil {
 		return nil, err
 	}
 	return t, nil
